@@ -76,7 +76,19 @@ def box(sym: Sym, st: State):
                 st.notes["boxed_seqs"] = seen + [(sym.t, v)]
         return v
     if k in ("dict", "set"):
+        # round trip: a dict / set unboxed from a value term and not modified since boxes back to that term
+        if k == "dict" and z3.is_app(sym.py.keys) and sym.py.keys.decl().name() == "dictkeys" and z3.is_app(sym.py.vals) \
+                and sym.py.vals.decl().name() == "dictvals" and sym.py.keys.arg(0).eq(sym.py.vals.arg(0)):
+            return sym.py.keys.arg(0)
+        if k == "set" and z3.is_app(sym.t) and sym.t.decl().name() == "setelems":
+            return sym.t.arg(0)
         v = fresh("box" + k, V)
+        if not (st.notes.get("binders") or []):
+            if k == "dict":
+                st.pc.append(uf("dictkeys", V, SeqV)(v) == sym.py.keys)
+                st.pc.append(uf("dictvals", V, z3.ArraySort(V, V))(v) == sym.py.vals)
+            else:
+                st.pc.append(uf("setelems", V, SeqV)(v) == sym.t)
         st.notes.setdefault("boxed", {})[v.get_id()] = sym
         st.pc.append(typeof(v) == CLASSES.const(k))
         if k == "dict":
